@@ -80,3 +80,67 @@ def install_cat_contracts(with_str=False):
             orig_str = klass.__dict__['__str__']
             klass.__str__ = icontract.ensure(_str_post, error=ContractBroken)(orig_str)
         _installed.add('str')
+
+
+# ------------------------------------------------------------------ value laws (C13)
+def _eq_post(self, other, result):
+    _count('contract:__eq__')
+    try:
+        a = refcat.to_ref(self)
+        if isinstance(other, str):
+            want = other == refcat.ref_print(a)
+            key = 'cat:string-eq'
+        elif hasattr(other, 'is_functor'):
+            want = a == refcat.to_ref(other)
+            key = 'cat:eq-hash'
+        else:
+            want = False
+            key = 'cat:eq-hash'
+        if bool(result) != want:
+            _viol(key, f'({refcat.ref_print(a)}) == ({other!s}) gave {result!r}, reference says {want}',
+                  {'a': refcat.ref_print(a), 'b': str(other), 'b_is_str': isinstance(other, str)})
+    except Exception as e:
+        _viol('cat:eq-hash', f'__eq__ contract could not inspect operands: {e!r}', {})
+    return True
+
+
+def _xor_post(self, other, result):
+    _count('contract:__xor__')
+    try:
+        a = refcat.to_ref(self)
+        want = hasattr(other, 'is_functor') and refcat.blind(a) == refcat.blind(refcat.to_ref(other))
+        if bool(result) != want:
+            _viol('cat:xor', f'({refcat.ref_print(a)}) ^ ({other!s}) gave {result!r}, reference says {want}',
+                  {'a': refcat.ref_print(a), 'b': str(other)})
+    except Exception as e:
+        _viol('cat:xor', f'__xor__ contract could not inspect operands: {e!r}', {})
+    return True
+
+
+def _clear_post(_ARGS, result):
+    _count('contract:clear_features')
+    self, args = _ARGS[0], tuple(_ARGS[1:])
+    try:
+        a = refcat.to_ref(self)
+        names = [x for x in args if isinstance(x, str)]
+        if len(names) != len(args) or any(('=' in n and ',' in n) for n in names):
+            return True   # outside the stated domain (named unary features)
+        want = refcat.erase(a, set(names))
+        got = refcat.to_ref(result)
+        if got != want:
+            _viol('cat:clear-features', f'({refcat.ref_print(a)}).clear_features{tuple(names)} gave {refcat.ref_print(got)}, '
+                  f'reference says {refcat.ref_print(want)}', {'a': refcat.ref_print(a), 'names': names})
+    except Exception as e:
+        _viol('cat:clear-features', f'clear_features contract could not inspect operands: {e!r}', {})
+    return True
+
+
+def install_value_contracts():
+    from depccg import cat as C
+    if 'values' in _installed:
+        return
+    for klass in (C.Atom, C.Functor):
+        klass.__eq__ = icontract.ensure(_eq_post, error=ContractBroken)(klass.__dict__['__eq__'])
+        klass.__xor__ = icontract.ensure(_xor_post, error=ContractBroken)(klass.__dict__['__xor__'])
+        klass.clear_features = icontract.ensure(_clear_post, error=ContractBroken)(klass.__dict__['clear_features'])
+    _installed.add('values')
